@@ -372,6 +372,17 @@ impl Prop for Captured {
                 v.push(Shape { alg, n, m, layout, entry: CapEntry::CaptureDiff, clock: false });
             }
         }
+        // mostly similar inputs whose middle-snake search runs for hundreds of rounds and then meets
+        // a short common block that conflicts with a longer one (fam 10; Myers only: 840 x 820 items)
+        let bait: &[(u16, u8, u8)] = match tier {
+            Tier::Quick => &[(240, 0, 0)],
+            Tier::Thorough => &[(240, 0, 0), (240, 1, 0b0110), (320, 0, 0), (200, 2, 0)],
+        };
+        for &(k, var, pad) in bait {
+            let layout = Layout::Long { fam: 10, k, var, pad };
+            let (n, m) = layout_lens(&layout, 0, 0);
+            v.push(Shape { alg: Algorithm::Myers, n, m, layout, entry: CapEntry::CaptureDiff, clock: false });
+        }
         v
     }
 
